@@ -3,7 +3,7 @@
    check_case re-runs the model and compares. *)
 From Coq Require Import List Arith ZArith NArith Bool.
 Import ListNotations.
-Require Import FV.Base.Util FV.Gen.C17 FV.C17.Model.
+Require Import FV.Base.Util FV.Gen.C17 FV.C17.Model FV.C17.ConcModel.
 
 Definition amap_eqb (a b : amap) : bool := list_eqb (pair_eqb Nat.eqb val_eqb) a b.
 
@@ -102,7 +102,7 @@ Definition step_log (M : mdesc) (s : st) (o : op) : list fsop :=
       end
   end.
 
-Record case := {
+Record scase := {
   c_M : mdesc;
   c_ops : list op;
   c_obs : list obs;
@@ -129,7 +129,46 @@ Fixpoint run_check (M : mdesc) (s : st) (ops : list op) (os : list obs) : bool :
   | _, _ => false
   end.
 
-Definition check_case (c : case) : bool := run_check (c_M c) st0 (c_ops c) (c_obs c).
+Definition check_scase (c : scase) : bool := run_check (c_M c) st0 (c_ops c) (c_obs c).
+
+(* a concurrent case: the module is created on an empty directory (k_n0: chunk count of the first dump), then the
+   threads k_thr run under the schedule k_sched (the thread of every step the deterministic scheduler made, start
+   steps left out); observed: the file-system calls in the order they were made, each with the thread that made it,
+   the two files and the module at the end.  The model is the system WITH the lock (the code of /repo). *)
+Record ccase := {
+  k_M : mdesc;
+  k_n0 : nat;
+  k_thr : list (list assign);
+  k_sched : list nat;
+  k_events : list (nat * fsop);
+  k_target : option content;
+  k_tmp : option content;
+  k_mod : mstate;
+}.
+
+Definition conc_final (c : ccase) : option cstate :=
+  let '(s1, _) := step (k_M c) st0 (OInit [] None (k_n0 c)) in
+  match md s1 with
+  | None => None
+  | Some m => Some (crun true (k_M c) (k_sched c) (cinit (dk s1) m (k_thr c)))
+  end.
+
+Definition check_ccase (c : ccase) : bool :=
+  match conc_final c with
+  | None => false
+  | Some st =>
+      list_eqb (pair_eqb Nat.eqb fsop_eqb) (c_ev st) (k_events c)
+      && opt_eqb content_eqb (target (c_disk st)) (k_target c)
+      && opt_eqb content_eqb (tmp (c_disk st)) (k_tmp c)
+      && mstate_eqb (c_mod st) (k_mod c)
+      && all_done st
+      && negb (held (c_lock st))
+  end.
+
+Inductive case := CSeq (c : scase) | CConc (c : ccase).
+
+Definition check_case (c : case) : bool :=
+  match c with CSeq s => check_scase s | CConc k => check_ccase k end.
 
 (* what the model does, for diagnosis in replay files *)
 Fixpoint model_trace (M : mdesc) (s : st) (ops : list op) : list (res * st * list fsop) :=
@@ -137,7 +176,9 @@ Fixpoint model_trace (M : mdesc) (s : st) (ops : list op) : list (res * st * lis
   | [] => []
   | o :: ops' => let '(s', r) := step M s o in (r, s', step_log M s o) :: model_trace M s' ops'
   end.
-Definition model_result (c : case) : list (res * st * list fsop) := model_trace (c_M c) st0 (c_ops c).
+Definition model_result_seq (c : scase) : list (res * st * list fsop) := model_trace (c_M c) st0 (c_ops c).
+Definition model_result (c : case) : list (res * st * list fsop) * option cstate :=
+  match c with CSeq s => (model_result_seq s, None) | CConc k => ([], conc_final k) end.
 
 (* per operation: which component of the observation differs (result, target, tmp, module, call sequence) *)
 Fixpoint diag (M : mdesc) (s : st) (ops : list op) (os : list obs) : list (bool * bool * bool * bool * bool) :=
@@ -149,4 +190,4 @@ Fixpoint diag (M : mdesc) (s : st) (ops : list op) (os : list obs) : list (bool 
        log_eqb (step_log M s o) (expand (o_log ob))) :: diag M s' ops' os'
   | _, _ => []
   end.
-Definition diag_case (c : case) := diag (c_M c) st0 (c_ops c) (c_obs c).
+Definition diag_case (c : scase) := diag (c_M c) st0 (c_ops c) (c_obs c).
